@@ -8,7 +8,7 @@ Not decided: the values a cache query returns; fairness.
 import ast
 
 from ..model import dotted, unparse, norm, walk_no_nested
-from ..rulelib import Ctx, reaching_defs, value_assigned, short
+from ..rulelib import Ctx, reaching_defs, value_assigned, short, resolve_copies
 from ..cachemodel import CacheModel, MUTATING, STRUCT_READS, PURE_READERS, ALIAS_READ_METHODS, path_facts
 
 SORT_KEYS_OK = ('by_timestamp', 'itemgetter(0)', 'operator.itemgetter(0)', 'lambda x: x[0]', 'lambda t_v: t_v[0]',
@@ -275,7 +275,9 @@ def rule_pop(check, cm, rule):
       if isinstance(v, ast.Call) and isinstance(v.func, ast.Attribute) and cm.is_self(v.func.value) and v.func.attr == 'pop':
         rule.ok('%s() returns pop()\'s batch unchanged' % name, m.loc(r))
         continue
-      verdict = _sorted_items(v, al)
+      cands = [x for x in resolve_copies(m, v)] if isinstance(v, ast.Name) and al.get(v.id) is None else [v]
+      verdicts = [_sorted_items(x, al) if isinstance(x, ast.AST) else 'not sorted(...)' for x in cands]
+      verdict = 'ok' if verdicts and all(x == 'ok' for x in verdicts) else next((x for x in verdicts if x != 'ok'), 'not sorted(...)')
       if verdict == 'ok':
         rule.ok('%s() returns sorted(<removed dict>.items()) by timestamp' % name, m.loc(r))
       elif verdict == 'unknown-key':
